@@ -529,7 +529,7 @@ impl<R: Round> Context<R> {
             // if the exponent is small enough, directly evaluate the exponent
             if repr.exponent >= 0 {
                 let signif = repr.significand * Repr::<B>::BASE.pow(repr.exponent as usize);
-                Exact(Repr::new(signif, 0))
+                self.repr_round(Repr::new(signif, 0))
             } else {
                 let num = Repr::new(repr.significand, 0);
                 let den = Repr::new(Repr::<B>::BASE.pow(-repr.exponent as usize).into(), 0);
